@@ -12,8 +12,9 @@ import (
 	"sigs.k8s.io/yaml"
 )
 
-// RoundTrip serves the REST requests of the kubectl apply path.
-func (c *Cluster) RoundTrip(req *http.Request) (*http.Response, error) {
+// RoundTrip serves the REST requests of the kubectl apply path. The fake REST client of client-go sends paths without the
+// /api(s)/group/version prefix, so the API group comes from the REST mapping the client was created for.
+func (c *Cluster) RoundTrip(group string, req *http.Request) (*http.Response, error) {
 	hdr := http.Header{}
 	hdr.Set("Content-Type", "application/json")
 	body := func(code int, v interface{}) *http.Response {
@@ -24,6 +25,9 @@ func (c *Cluster) RoundTrip(req *http.Request) (*http.Response, error) {
 		return body(code, map[string]interface{}{"kind": "Status", "apiVersion": "v1", "status": "Failure", "reason": reason, "code": code, "message": msg})
 	}
 	k, ok := parsePath(req.URL.Path)
+	if ok && k.Group == "" {
+		k.Group = group
+	}
 	if !ok {
 		return status(404, "NotFound", "unknown path "+req.URL.Path), nil
 	}
@@ -147,8 +151,6 @@ func parsePath(p string) (Key, bool) {
 	case len(parts) >= 3 && parts[0] == "apis":
 		k.Group = parts[1]
 		parts = parts[3:]
-	default:
-		return k, false
 	}
 	if len(parts) >= 2 && parts[0] == "namespaces" && len(parts) >= 3 {
 		k.Namespace = parts[1]
